@@ -103,6 +103,15 @@ where
                         if text_element_type == TextElementType::NonBlank {
                             last_non_blank = Some(elements.len());
                         }
+                        // a blank line contributes its line end only: the spaces on it are not text
+                        let (slice_start, indent) = if text_element_role
+                            == TextElementPosition::LineStart
+                            && text_element_type == TextElementType::Blank
+                        {
+                            (start, 0)
+                        } else {
+                            (slice_start, indent)
+                        };
                         elements.push(PatternElementPlaceholders::TextElement(
                             slice_start,
                             end,
